@@ -100,7 +100,7 @@ def cb_kind(t):
   f = getattr(cb, "__func__", None)
   if f is rc.RIPRouter._on_triggered_update:
     return "trig"
-  if getattr(f, "__name__", "") == "_on_send":
+  if getattr(f, "__name__", "") in ("_on_send", "_first_send"):
     return "per"
   return "other"
 
